@@ -71,6 +71,51 @@ theorem state_write_gated {α : Type} (key sv : α → Nat) (am : Bool) (l : Lis
   · right
     exact ⟨by omega, gatedPut_of_covered key sv ⟨old, h, by omega⟩⟩
 
+/-- **every report, deleting ones included**: if the reports that reach the consumer are drawn (any subset, order,
+    multiplicity) from a coherent pool of published reports, no StateVersion ever decreases -/
+theorem state_versions_monotone_published {pool : List Source} (hc : Coherent pool) (s : St) (r : Report)
+    (hr : Source.ofReport r ∈ pool) (w : s.core.tabs.Wf) (hj : Justified pool s.core) :
+    Mono (·.dh) (·.sv) s.core.tabs.states (step s (.report r)).1.core.tabs.states ∧
+    Mono (·.h) (·.sv) s.core.tabs.cstates (step s (.report r)).1.core.tabs.cstates ∧
+    Justified pool (step s (.report r)).1.core := by
+  have refl : Mono (·.dh) (·.sv) s.core.tabs.states s.core.tabs.states ∧
+      Mono (·.h) (·.sv) s.core.tabs.cstates s.core.tabs.cstates ∧ Justified pool s.core :=
+    ⟨fun k a b ha hb => by rw [ha] at hb; cases hb; exact Nat.le_refl _,
+     fun k a b ha hb => by rw [ha] at hb; cases hb; exact Nat.le_refl _, hj⟩
+  rcases step_report_cases s r with ⟨_, h⟩ | ⟨_, h⟩ | ⟨_, _, h⟩ | ⟨_, hid, h⟩ <;> rw [h]
+  · exact refl
+  · exact refl
+  · exact refl
+  · have hseq : r.vg.seq = s.core.vg.seq := by
+      unfold idsDiffer at hid; simp at hid; exact hid.1
+    exact applyReport_coherent hc hr hseq w hj
+
+/-- the invariant `Justified` holds after every load: the states come from the GetMdib answer, the replayed reports
+    keep it -/
+theorem justified_after_reload {pool : List Source} (s : St) (snap : Snapshot) (hs : Source.ofSnapshot snap ∈ pool)
+    (hb : ∀ r ∈ s.buf, Source.ofReport r ∈ pool) (hcoh : Coherent pool) (hm : s.mode = .initializing)
+    (hw : snap.wf [] = true) (hc : snap.cstates ≠ []) :
+    Justified pool (step s (.reloadEnd snap [])).1.core := by
+  rw [step_reloadEnd snap [] hm hw, replay_eq_applyAll]
+  have hload : (loadSnapshot snap []).tabs.cstates = snap.cstates := by
+    unfold loadSnapshot
+    cases hcs : snap.cstates with
+    | nil => exact absurd hcs hc
+    | cons x xs => simp
+  have hj0 : Justified pool (loadSnapshot snap []) :=
+    ⟨fun x hx => ⟨_, hs, rfl, Nat.le_refl _, hx⟩, fun x hx => ⟨_, hs, rfl, Nat.le_refl _, by rw [hload] at hx; exact hx⟩⟩
+  refine applyAll_justified hcoh snap.vg.seq _ _ hj0 (loadSnapshot_wf hw) rfl ?_
+  intro r hr
+  rw [List.mem_filter] at hr
+  refine ⟨hb r hr.1, ?_⟩
+  have := hr.2; unfold replayable at this; simp at this; exact this.1
+
+/-- the hypotheses are satisfiable: a pool made of a Get answer and reports with growing versions is coherent, the
+    loaded consumer is justified by it -/
+def pool0 : List Source := [Source.ofSnapshot snap0, Source.ofReport metric4, Source.ofReport metric5, Source.ofReport descr6]
+example : Coherent pool0 := by decide
+example : Justified pool0 loaded.core := by decide
+
 /-! ### stale and duplicated reports -/
 
 /-- a report older than the MdibVersion of the consumer changes nothing (and names nothing) -/
